@@ -49,7 +49,11 @@ func (g *Gen) extraStmt(depth int) []*S {
 				out = g.funcValueTemplate(depth)
 			}
 		case 9:
-			out = g.multiAssign(depth)
+			if g.o.Lib && g.r.Intn(2) == 0 {
+				out = g.fmtPrintStmt(depth)
+			} else {
+				out = g.multiAssign(depth)
+			}
 		case 10:
 			if g.o.Structs {
 				out = g.methodValueTemplate(depth)
